@@ -186,6 +186,34 @@ theorem compile_string_answer_is_fuel_independent (fuel : Nat) (cs : CState) (sr
   unfold LeP at key
   exact key h
 
+/-- … and for every larger fuel -/
+theorem compile_answer_for_every_larger_fuel (n m : Nat) (hnm : n ≤ m) (cs : CState) (name : Bytes)
+    (h : NotOof (fromFile T cfg n cs name)) :
+    fromFile T cfg m cs name = fromFile T cfg n cs name := by
+  induction m with
+  | zero => cases Nat.le_zero.mp hnm; rfl
+  | succ k ih =>
+    by_cases hk : n ≤ k
+    · have e := ih hk
+      rw [← e] at h
+      rw [compile_answer_is_fuel_independent T cfg k cs name h, e]
+    · have : n = k + 1 := by omega
+      subst this; rfl
+
+/-- **The whole pipeline has one answer.**  Compile a file with any fuel that suffices (the answer
+    is not "out of fuel") and execute the result with any fuel that suffices (not "diverge"): every
+    larger pair of fuels compiles to the same tables (or the same error) and executes to the same
+    output, error and final state. -/
+theorem pipeline_answer_is_fuel_independent (n n' m m' : Nat) (hn : n ≤ n') (hm : m ≤ m') (name : Bytes) (ctx : Env)
+    (ti : Nat) (cs : CState)
+    (hc : fromFile T cfg n {} name = .ok (ti, cs))
+    (hx : NotDiv ((executeTpl T cfg g m ti ctx).run { cs := cs })) :
+    fromFile T cfg n' {} name = .ok (ti, cs) ∧
+    (executeTpl T cfg g m' ti ctx).run { cs := cs } = (executeTpl T cfg g m ti ctx).run { cs := cs } := by
+  constructor
+  · rw [compile_answer_for_every_larger_fuel T cfg n n' hn {} name (by rw [hc]; trivial), hc]
+  · exact answer_is_fuel_independent T cfg g m m' hm ti ctx _ hx
+
 /-- non-vacuity: running out of fuel is the only answer that more fuel changes — with no fuel at
     all the answer *is* "diverge", and it is excluded by `NotDiv` -/
 example (ti : Nat) (ctx : Env) (σ : ES) : ¬ NotDiv ((executeTpl T cfg g 0 ti ctx).run σ) := by
